@@ -273,8 +273,11 @@ CLAIMS = {
               "every well-formed SPPF C03_forest_enum / _by_index_is_all / _iteration_is_all (each tree exactly once by index and by "
               "iteration, None from solutions() on). Tie B: Cert.glr, Cert.glrLayout, Cert.completeRN and the RN cover certificate are "
               "executed on every real table. Tie A: engine model vs real GlrParser on every input (solutions, every tree with spans, "
-              "SPPF sharing, error position and expected set), real SPPF loaded into the enumeration model. PARTIAL: no-duplicates is "
-              "a stated def, not a theorem; LexDet is a hypothesis (lexically ambiguous inputs are inside soundness/no-panic/"
+              "SPPF sharing, error position and expected set), real SPPF loaded into the enumeration model. No duplicates: C03_engine_no_duplicates_from_poss_facts (two different indices "
+              "never give elisions of one derivation) holds given PossFacts + repetition-free roots of the result graph, which the driver "
+              "evaluates as a Bool (Glr.possFactsB, soundness possFactsB_sound) on the model's result of EVERY input (`glr nodup`, "
+              "per-input certificate; the model's graph is tied to the real SPPF by the correspondence). PARTIAL: that the run "
+              "establishes PossFacts for all inputs is not a theorem (the coarse statement with Tree.EqElide is proved FALSE); LexDet is a hypothesis (lexically ambiguous inputs are inside soundness/no-panic/"
               "correspondence only); termination; cyclic SPPFs excluded (hasCut). Those parts are decided by the independent "
               "derivation counter/enumerator (token-level and character-level) on generated grammars x all strings up to a bound."),
         design_ref="0/C03, notes/Glr.md",
